@@ -54,7 +54,7 @@ Definition is_off (m : msg) : bool := mtype_eqb (m_type m) NOTE_OFF.
 Definition is_note (m : msg) : bool := is_on m || is_off m.
 
 (* ---------------------------------------------------------------- results *)
-Inductive err : Set := BarErr | SeqErr | TokErr | KeyErr | IndexErr | ValueErr | TypeErr | OutOfFuel | OutOfModel.
+Inductive err : Set := BarErr | SeqErr | TokErr | KeyErr | IndexErr | ValueErr | TypeErr | OutOfFuel | OutOfModel | TrackErr.
 Inductive result (A : Type) : Type := Ok (a : A) | Err (e : err).
 Arguments Ok {A} a. Arguments Err {A} e.
 Definition rbind {A B} (r : result A) (f : A -> result B) : result B :=
